@@ -59,7 +59,7 @@ func c20NewFixture() *c20Fixture {
 	b := enum.Generic([]int{2}, 1006, 0.5, 2, true)
 	fc, err := layers.NewFC(&layers.FCConfig{Inputs: 2, Outputs: 2, Initializers: map[string]layers.Initializer{"Weight": fixedInit{t: w}, "Bias": fixedInit{t: b}}})
 	if err != nil {
-		panic("HARNESS: " + err.Error())
+		panic("NewFC with valid configuration failed while building the shared fixture: " + err.Error())
 	}
 	f.fc = fc
 	f.relu, f.lrelu, f.sigmoid, f.tanh = activations.NewRelu(), activations.NewLeakyRelu(nil), activations.NewSigmoid(), activations.NewTanh()
@@ -485,6 +485,12 @@ func c20RunScenario(c *core.Ctx, sc c20Scenario, bound int, maxExec int64) core.
 	// something the scheduler does not intercept (steps take microseconds; the margin is for a starved machine)
 	const stepTimeout = 90 * time.Second
 	bs := c20Bodies()
+	if sched.Tainted {
+		c.P.Capped = true
+		c.P.CapNote = "an earlier execution in this worker was abandoned (blocked or spinning thread); later scenarios of this worker are not explored"
+		c.Count("scenarios_not_explored_after_an_abandoned_execution", 1)
+		return core.Verdict{OK: true, Skip: true, Detail: "not explored: worker tainted by an abandoned execution"}
+	}
 	const seed = 777
 	// solo observations: each body alone on a fresh fixture (no scheduler)
 	solo := make([][]string, len(sc.bodies))
@@ -515,6 +521,10 @@ func c20RunScenario(c *core.Ctx, sc c20Scenario, bound int, maxExec int64) core.
 	nExec := 0
 	check := func(x *sched.Exec) bool {
 		nExec++
+		if x.Deadlock != "" && syncShimRealWaiters() > 0 {
+			hungUncontrolled = fmt.Sprintf("schedule %s: threads wait (%s) while %d goroutine(s) started outside the controlled execution are parked in the library's real synchronisation primitives (a worker pool?): the cooperative operations cannot wake them", schedStr(x.Choices), x.Deadlock, syncShimRealWaiters())
+			return false
+		}
 		if x.Deadlock != "" {
 			fail = fmt.Sprintf("deadlock under schedule %s (%d preemptions): no goroutine can proceed: %s", schedStr(x.Choices), x.PreemptionsBefore(len(x.Points)), x.Deadlock)
 			return false
@@ -596,9 +606,24 @@ func c20RunScenario(c *core.Ctx, sc c20Scenario, bound int, maxExec int64) core.
 	}
 	x2, err := sched.Run(mk(), x1.Choices, stepTimeout)
 	if err != nil {
-		return core.Fail("the first schedule cannot be replayed: %v (the sequence of scheduling points depends on something other than the schedule)", err)
+		// the sequence of scheduling points depends on something other than the schedule (addresses,
+		// map order, ...): the scenario cannot be explored by replay; the free-running pass covers it
+		c.P.Capped = true
+		c.P.CapNote = fmt.Sprintf("scenario %s not explorable: the first schedule cannot be replayed (%v)", sc.name(bs), err)
+		c.Count("scenarios_not_explorable_nondeterministic_points", 1)
+		c.Note("scenario %s not explorable: %v", sc.name(bs), err)
+		return core.Verdict{OK: true, Skip: true, Detail: "not explorable: " + err.Error()}
 	}
 	if render(x1, true) != render(x2, true) {
+		if len(x1.Points) != len(x2.Points) && fmt.Sprint(x1.Results...) == fmt.Sprint(x2.Results...) {
+			// same results, another number of scheduling points: control flow that depends on addresses or
+			// map order - harmless, but schedules cannot be replayed
+			c.P.Capped = true
+			c.P.CapNote = fmt.Sprintf("scenario %s not explorable: the same schedule reaches %d and then %d scheduling points", sc.name(bs), len(x1.Points), len(x2.Points))
+			c.Count("scenarios_not_explorable_nondeterministic_points", 1)
+			c.Note("scenario %s not explorable: the same schedule reaches %d and then %d scheduling points", sc.name(bs), len(x1.Points), len(x2.Points))
+			return core.Verdict{OK: true, Skip: true, Detail: "not explorable: number of scheduling points varies"}
+		}
 		return core.Fail("scenario %s: the SAME schedule executed twice on fresh tensors gives different results (hidden state shared between executions):\n%s\n%s", sc.name(bs), render(x1, true), render(x2, true))
 	}
 	if render(x1, false) != render(x2, false) {
@@ -633,7 +658,15 @@ func c20RunScenario(c *core.Ctx, sc c20Scenario, bound int, maxExec int64) core.
 	}
 	st, err := sched.Explore(mk, bound, 4*maxExec, stepTimeout, dl, check)
 	if err != nil {
-		return core.Fail("HARNESS: %v", err)
+		// a recorded prefix could not be replayed: the sequence of scheduling points is not a function of
+		// the schedule alone; what was explored so far stands, the rest is left to the free-running pass
+		c.P.Capped = true
+		c.P.CapNote = fmt.Sprintf("scenario %s: exploration stopped, %v", sc.name(bs), err)
+		c.Count("scenarios_not_explorable_nondeterministic_points", 1)
+		c.Note("scenario %s: exploration stopped after %d schedules: %v", sc.name(bs), st.Executions, err)
+		if fail == "" {
+			return core.Verdict{OK: true, Skip: true, Detail: "exploration stopped: " + err.Error()}
+		}
 	}
 	_ = firstObs
 	var total int64
